@@ -49,6 +49,8 @@ trait Sc: linfa::Float {
     fn tiny() -> Self;
     /// initial position for the long-budget cases: halving it `m` times stays non-zero for m <= 260
     fn long_start() -> Self;
+    /// a quarter of the largest finite value (a power-of-two scaling of it, so small multiples are exact)
+    fn maxq() -> f64;
 }
 impl Sc for f64 {
     const PREC: u32 = 64;
@@ -76,6 +78,9 @@ impl Sc for f64 {
     fn long_start() -> f64 {
         1.0
     }
+    fn maxq() -> f64 {
+        f64::MAX / 4.0
+    }
 }
 impl Sc for f32 {
     const PREC: u32 = 32;
@@ -102,6 +107,9 @@ impl Sc for f32 {
     }
     fn long_start() -> f32 {
         f32::from_bits(0x7b80_0000) // 2^120
+    }
+    fn maxq() -> f64 {
+        (f32::MAX / 4.0) as f64
     }
 }
 fn hxc<F: Sc>(v: F) -> String {
@@ -202,7 +210,8 @@ fn rows_of<F: Sc>(a: &Array2<F>) -> Vec<Vec<F>> {
     a.rows().into_iter().map(|r| r.to_vec()).collect()
 }
 fn show_mat<F: Sc>(rows: &[Vec<F>]) -> String {
-    list2(rows.iter().map(|r| r.iter()), |x| x.hx())
+    // NaN canonical (a returned centroid can be NaN on the overflow stream; requests never hold one)
+    list2(rows.iter().map(|r| r.iter()), |x| hxc(*x))
 }
 fn show_count<F: Sc>(c: F) -> String {
     let c = c.to();
@@ -391,6 +400,13 @@ struct Req<'a, F: Sc> {
     lay_x: Lay,
     lay_q: Lay,
 }
+/// a precomputed initial matrix in column-major order (what `c.t().to_owned()` or
+/// `Array2::from_shape_vec((k, p).f(), ..)` hand to `KMeansInit::Precomputed`)
+fn f_order<F: Sc>(a: &Array2<F>) -> Array2<F> {
+    let mut b = Array2::zeros(a.dim().f());
+    b.assign(a);
+    b
+}
 
 fn fit_with<F: Sc, D: Distance<F>>(d: D, r: &Req<F>) -> Option<FitOut<F>> {
     let laid = Laid::new(r.x, r.lay_x);
@@ -408,9 +424,15 @@ fn fit_api<F: Sc>(r: &Req<F>) -> Option<FitOut<F>> {
 fn fit_plain<F: Sc>(metric: Metric, k: usize, x: &Array2<F>, q: &Array2<F>, init: &Init<F>, runs: usize, m: u64, tol: F, seed: u64) -> Option<FitOut<F>> {
     fit_api(&Req { metric, k, x, q, init, runs, m, tol, seed, lay_x: Lay::C, lay_q: Lay::C })
 }
-fn inits_api<F: Sc>(metric: Metric, k: usize, x: &Array2<F>, init: &KMeansInit<F>, runs: usize, mut rng: Xoshiro256Plus) -> Vec<Array2<F>> {
+fn fit_lay<F: Sc>(metric: Metric, k: usize, x: &Array2<F>, q: &Array2<F>, init: &Init<F>, runs: usize, m: u64, tol: F, seed: u64, lay_x: Lay) -> Option<FitOut<F>> {
+    fit_api(&Req { metric, k, x, q, init, runs, m, tol, seed, lay_x, lay_q: Lay::C })
+}
+/// the initial matrices of the runs, by linfa's own initialiser on the training matrix in the given
+/// memory layout (the same view type `fit` hands to it)
+fn inits_api<F: Sc>(metric: Metric, k: usize, x: &Array2<F>, lay_x: Lay, init: &KMeansInit<F>, runs: usize, mut rng: Xoshiro256Plus) -> Vec<Array2<F>> {
     // `fit` clones the rng once and calls the initialiser once per run; nothing else draws from it
-    with_dist!(metric, F, |d| (0..runs).map(|_| hooks::init_run(init, &d, k, x.view(), &mut rng)).collect())
+    let laid = Laid::new(x, lay_x);
+    with_dist!(metric, F, |d| (0..runs).map(|_| hooks::init_run(init, &d, k, laid.view(), &mut rng)).collect())
 }
 /// `Distance::distance` between two matrices, by linfa's own implementation (used only to place a
 /// tolerance exactly on a shift)
@@ -541,6 +563,14 @@ fn oracle_first_step<F: Sc>(ctx: &mut Ctx, class: &str, metric: Metric, x: &[Vec
     true
 }
 
+/// "initialised from the data": every row of an initial matrix is, bit for bit, a row of the data
+fn oracle_init_rows<F: Sc>(ctx: &mut Ctx, class: &str, k: usize, x: &[Vec<F>], inits: &[Array2<F>]) {
+    for c in inits {
+        let all_rows = rows_of(c).iter().all(|r| x.iter().any(|d| d.len() == r.len() && d.iter().zip(r).all(|(a, b)| a.hx() == b.hx())));
+        ctx.require(all_rows && c.nrows() == k, "init_returns_data_rows", class, || format!("initial centroids {:?} are not {} rows of the data", c, k));
+    }
+}
+
 fn show_fitted<F: Sc>(o: &Option<FitOut<F>>) -> String {
     match o {
         None => "err".to_string(),
@@ -577,13 +607,14 @@ fn gen_data<F: Sc>(rng: &mut Rng, big: bool, size: u8) -> Data<F> {
     let kinds = ["lattice", "dyadic", "dups", "fewdistinct", "onefeature", "blobs", "cloud", "scaled", "extreme"];
     let kind = *rng.pick(&kinds);
     let nmax = match (size, big) {
+        (3, _) => 300,
         (2, false) => 64,
         (2, true) => 300,
         (_, true) => 40,
         _ => 12,
     };
-    let n = 1 + rng.below(nmax);
-    let pmax = if size == 2 { 8 } else { 3 };
+    let n = if size == 3 { 257 + rng.below(nmax) } else { 1 + rng.below(nmax) };
+    let pmax = if size == 2 { 8 } else if size == 3 { 2 } else { 3 };
     let p = if kind == "onefeature" { 1 } else { 1 + rng.below(pmax) };
     let x: Vec<Vec<f64>> = match kind {
         "lattice" | "onefeature" => (0..n).map(|_| (0..p).map(|_| rng.range(-4, 4) as f64).collect()).collect(),
@@ -713,10 +744,13 @@ fn op_update<F: Sc>(em: &mut Em, cs: Vec<Vec<F>>, x: Vec<Vec<F>>, mem: Vec<usize
 }
 
 #[allow(clippy::too_many_arguments)]
-fn op_fit<F: Sc>(em: &mut Em, metric: Metric, d: &Data<F>, init: Vec<Vec<F>>, ikind: &str, m: u64, tol: F, q: Vec<Vec<F>>, lay_x: Lay, lay_q: Lay, tag: &str) {
+fn op_fit<F: Sc>(em: &mut Em, metric: Metric, d: &Data<F>, init: Vec<Vec<F>>, ikind: &str, m: u64, tol: F, q: Vec<Vec<F>>, lay_x: Lay, lay_q: Lay, init_f: bool, tag: &str) {
     let k = init.len();
-    let op = format!("fit metric={} X={} init={} m={} tol={} Q={}{} layx={} layq={}", metric.name(), show_mat(&d.x), show_mat(&init), m, tol.hx(), show_mat(&q), prec_tok::<F>(), lay_x.name(), lay_q.name());
-    let class = cls::<F>(format!("fit:metric={}:runs=1", metric.name()));
+    let op = format!("fit metric={} X={} init={} m={} tol={} Q={}{} layx={} layq={} layi={}", metric.name(), show_mat(&d.x), show_mat(&init), m, tol.hx(), show_mat(&q), prec_tok::<F>(), lay_x.name(), lay_q.name(), if init_f { "F" } else { "C" });
+    // `overflow` data: sums of a few rows leave the range; `fit` may then answer `Err(InertiaError)`
+    // (no fitted model, nothing promised), but a model it does return must still have finite centroids
+    let overflow = d.kind == "overflow";
+    let class = cls::<F>(format!("fit:metric={}:runs=1", metric.name())) + if overflow { ":data=overflow" } else { "" };
     em.count(&format!("fit:data={}", d.kind));
     em.count(&format!("fit:init={}", ikind));
     let x = d.x.clone();
@@ -725,30 +759,48 @@ fn op_fit<F: Sc>(em: &mut Em, metric: Metric, d: &Data<F>, init: Vec<Vec<F>>, ik
     em.case_valid(op, &class, |ctx| {
         let xa = mat(&x, p);
         let qa = qmat(&q, p);
-        let ia = Init::Pre(mat(&init, p));
+        let ia = Init::Pre(if init_f { f_order(&mat(&init, p)) } else { mat(&init, p) });
         let o = fit_api(&Req { metric, k, x: &xa, q: &qa, init: &ia, runs: 1, m, tol, seed: 0, lay_x, lay_q });
         match &o {
             None => {
-                ctx.fail("fit_succeeds", &class, "fit returned an error on finite data".to_string());
+                if !overflow {
+                    ctx.fail("fit_succeeds", &class, "fit returned an error on finite data".to_string());
+                }
                 "err".to_string()
             }
             Some(f) => {
-                oracle_fitted(ctx, &class, metric, k, &x, &q, f, in_bbox(&bbox(&x), &init));
-                if m == 1 {
-                    oracle_first_step(ctx, &class, metric, &x, &init, &f.centroids);
+                let fin = f.centroids.iter().flatten().all(|v| v.is_finite());
+                if overflow && !fin {
+                    // only the clause that is broken; the distances to a non-finite centroid are inf / NaN
+                    ctx.fail("finite", &class, format!("budget {}: fit returned Ok with centroids {:?} (inertia {:?}) on finite data {:?}", m, f.centroids, f.inertia, x));
+                } else {
+                    oracle_fitted(ctx, &class, metric, k, &x, &q, f, in_bbox(&bbox(&x), &init));
+                    if m == 1 {
+                        oracle_first_step(ctx, &class, metric, &x, &init, &f.centroids);
+                    }
                 }
                 format!(
-                    "ok {} pred={} pred1={} inplace={} tr={}",
+                    "ok {} pred={} pred1={} inplace={} short={} tr={}",
                     show_fitted(&o),
                     list(f.pred.iter(), |v| v.to_string()),
                     list(f.pred1.iter(), |v| v.to_string()),
                     list(f.inplace.iter(), |v| v.to_string()),
+                    f.short_buf,
                     list(f.tr.iter(), |v| hxc(*v))
                 )
             }
         }
     });
-    count_ok(em, before, &[format!("ok:fit:prec={}", F::PREC), format!("ok:fit:metric={}", metric.name()), format!("ok:fit:layx={}", lay_x.name()), format!("ok:fit:layq={}", lay_q.name()), format!("ok:fit:data={}", d.kind), format!("ok:fit:{}", tag)]);
+    count_ok(em, before, &[format!("ok:fit:prec={}", F::PREC), format!("ok:fit:metric={}", metric.name()), format!("ok:fit:layx={}", lay_x.name()), format!("ok:fit:layq={}", lay_q.name()), format!("ok:fit:layi={}", if init_f { "F" } else { "C" }), format!("ok:fit:data={}", d.kind), format!("ok:fit:{}", tag)]);
+    if overflow && em.outs.len() > before {
+        // both outcomes of the overflow stream are part of what the correspondence covers: the model's
+        // `none` (`Err(InertiaError)`) and a returned model
+        match em.outs.last().map(|s| s.as_str()) {
+            Some("err") => em.count(&format!("ok:fit:overflow=err:metric={}", metric.name())),
+            Some(s) if s.starts_with("ok") => em.count(&format!("ok:fit:overflow=model:metric={}", metric.name())),
+            _ => {}
+        }
+    }
 }
 
 fn op_traj<F: Sc>(em: &mut Em, metric: Metric, d: &Data<F>, init: Vec<Vec<F>>, mm: u64, tol: F, q: Vec<Vec<F>>) {
@@ -760,6 +812,7 @@ fn op_traj<F: Sc>(em: &mut Em, metric: Metric, d: &Data<F>, init: Vec<Vec<F>>, m
     let p = d.p();
     let before = em.outs.len();
     let stepped = Cell::new(false);
+    let rose = Cell::new(false);
     em.case_valid(op, &class, |ctx| {
         let xa = mat(&x, p);
         let qa = qmat(&q, p);
@@ -777,7 +830,11 @@ fn op_traj<F: Sc>(em: &mut Em, metric: Metric, d: &Data<F>, init: Vec<Vec<F>>, m
                 let c = cost_of(metric, &f.centroids, &x);
                 if let Some((pm, pc)) = prev {
                     // the cost of the returned centroids never increases when the budget grows
-                    ctx.require(c <= pc * (1.0 + F::rel()) + 1e-300 + 4.0 * x.len() as f64 * F::tiny().to(), "cost_antitone_in_budget", &class, || format!("budget {} -> {}: within-cluster cost {:?} -> {:?} (centroids {:?})", pm, m, pc, c, f.centroids));
+                    let held = c <= pc * (1.0 + F::rel()) + 1e-300 + 4.0 * x.len() as f64 * F::tiny().to();
+                    if !held {
+                        rose.set(true);
+                    }
+                    ctx.require(held, "cost_antitone_in_budget", &class, || format!("budget {} -> {}: within-cluster cost {:?} -> {:?} (centroids {:?})", pm, m, pc, c, f.centroids));
                 }
                 prev = Some((m, c));
             } else {
@@ -787,7 +844,10 @@ fn op_traj<F: Sc>(em: &mut Em, metric: Metric, d: &Data<F>, init: Vec<Vec<F>>, m
         }
         format!("ok {}", parts.join(" "))
     });
-    count_ok(em, before, &[format!("ok:traj:prec={}", F::PREC), format!("ok:traj:metric={}", metric.name())]);
+    // the complement of what the open finding masks: trajectories on which the cost never rose (a floor on
+    // this count is a ceiling on the masked ones)
+    let held_key = format!("{}:traj:metric={}", if rose.get() { "rose:antitone" } else { "ok:antitone_held" }, metric.name());
+    count_ok(em, before, &[format!("ok:traj:prec={}", F::PREC), format!("ok:traj:metric={}", metric.name()), held_key]);
     if stepped.get() {
         em.count("ok:first_step_checked");
     } else {
@@ -796,13 +856,14 @@ fn op_traj<F: Sc>(em: &mut Em, metric: Metric, d: &Data<F>, init: Vec<Vec<F>>, m
 }
 
 #[allow(clippy::too_many_arguments)]
-fn op_restarts<F: Sc>(em: &mut Em, pool: &rayon::ThreadPool, metric: Metric, d: &Data<F>, k: usize, init: Init<F>, rr: usize, m: u64, tol: F, seed: u64, q: Vec<Vec<F>>) {
+fn op_restarts<F: Sc>(em: &mut Em, pool: &rayon::ThreadPool, metric: Metric, d: &Data<F>, k: usize, init: Init<F>, rr: usize, m: u64, tol: F, seed: u64, q: Vec<Vec<F>>, lay_x: Lay) {
     // the initial matrices are part of the request, so they are computed before the case is registered
     let xa = d.arr();
     let li = init.to_linfa();
-    let inits: Vec<Array2<F>> = catch_unwind(AssertUnwindSafe(|| pool.install(|| inits_api(metric, k, &xa, &li, rr, Xoshiro256Plus::seed_from_u64(seed))))).unwrap_or_default();
+    let threads = pool.current_num_threads();
+    let inits: Vec<Array2<F>> = catch_unwind(AssertUnwindSafe(|| pool.install(|| inits_api(metric, k, &xa, lay_x, &li, rr, Xoshiro256Plus::seed_from_u64(seed))))).unwrap_or_default();
     let op = format!(
-        "restarts metric={} X={} inits={} k={} m={} tol={} init={} seed={}{}",
+        "restarts metric={} X={} inits={} k={} m={} tol={} init={} seed={}{} layx={} threads={}",
         metric.name(),
         show_mat(&d.x),
         inits.iter().map(|c| show_mat(&rows_of(c))).collect::<Vec<_>>().join("|"),
@@ -811,9 +872,11 @@ fn op_restarts<F: Sc>(em: &mut Em, pool: &rayon::ThreadPool, metric: Metric, d: 
         tol.hx(),
         init.name(),
         seed,
-        prec_tok::<F>()
+        prec_tok::<F>(),
+        lay_x.name(),
+        threads
     );
-    let class = cls::<F>(format!("restarts:metric={}:init={}", metric.name(), init.name()));
+    let class = cls::<F>(format!("restarts:metric={}:init={}{}", metric.name(), init.name(), if threads == 1 { "" } else { ":threads=many" }));
     em.count(&format!("restarts:init={}", init.name()));
     em.count(&format!("restarts:data={}", d.kind));
     let x = d.x.clone();
@@ -825,15 +888,12 @@ fn op_restarts<F: Sc>(em: &mut Em, pool: &rayon::ThreadPool, metric: Metric, d: 
             ctx.fail("no_panic", &class, "the initialiser panicked on data with k <= n".to_string());
             return "panic".to_string();
         }
-        for c in &inits {
-            let all_rows = rows_of(c).iter().all(|r| x.iter().any(|d| d.iter().zip(r).all(|(a, b)| a.hx() == b.hx())));
-            ctx.require(all_rows && c.nrows() == k, "init_returns_data_rows", &class, || format!("initial centroids {:?} are not {} rows of the data", c, k));
-        }
+        oracle_init_rows(ctx, &class, k, &x, &inits);
         let mut parts = vec![];
         let mut prev: Option<F> = None;
         for r in 1..=rr {
             let cl = format!("{}:runs={}", class, if r == 1 { "1" } else { "multi" });
-            let o = pool.install(|| fit_plain(metric, k, &xa, &qa, &init, r, m, tol, seed));
+            let o = pool.install(|| fit_lay(metric, k, &xa, &qa, &init, r, m, tol, seed, lay_x));
             if let Some(f) = &o {
                 oracle_fitted(ctx, &cl, metric, k, &x, &q, f, true);
                 if let Some(pi) = prev {
@@ -847,19 +907,19 @@ fn op_restarts<F: Sc>(em: &mut Em, pool: &rayon::ThreadPool, metric: Metric, d: 
         }
         format!("ok {}", parts.join(" "))
     });
-    count_ok(em, before, &[format!("ok:restarts:prec={}", F::PREC), format!("ok:restarts:init={}", init.name())]);
+    count_ok(em, before, &[format!("ok:restarts:prec={}", F::PREC), format!("ok:restarts:init={}", init.name()), format!("ok:restarts:layx={}", lay_x.name()), format!("ok:restarts:threads={}", if threads == 1 { "1" } else { "many" }), format!("ok:restarts:init={}:threads={}", init.name(), if threads == 1 { "1" } else { "many" })]);
 }
 
 /// "the within-cluster cost of the returned centroids never increases when the iteration budget grows",
 /// with restarts: `n_runs = rr` from a fixed seed, budgets `ms` (ascending); the initial matrices of the
 /// restarts do not depend on the budget and are observed through the hook
 #[allow(clippy::too_many_arguments)]
-fn op_sweep<F: Sc>(em: &mut Em, pool: &rayon::ThreadPool, metric: Metric, d: &Data<F>, k: usize, init: Init<F>, rr: usize, ms: Vec<u64>, tol: F, seed: u64, q: Vec<Vec<F>>) {
+fn op_sweep<F: Sc>(em: &mut Em, pool: &rayon::ThreadPool, metric: Metric, d: &Data<F>, k: usize, init: Init<F>, rr: usize, ms: Vec<u64>, tol: F, seed: u64, q: Vec<Vec<F>>, lay_x: Lay) {
     let xa = d.arr();
     let li = init.to_linfa();
-    let inits: Vec<Array2<F>> = catch_unwind(AssertUnwindSafe(|| pool.install(|| inits_api(metric, k, &xa, &li, rr, Xoshiro256Plus::seed_from_u64(seed))))).unwrap_or_default();
+    let inits: Vec<Array2<F>> = catch_unwind(AssertUnwindSafe(|| pool.install(|| inits_api(metric, k, &xa, lay_x, &li, rr, Xoshiro256Plus::seed_from_u64(seed))))).unwrap_or_default();
     let op = format!(
-        "sweep metric={} X={} inits={} k={} ms={} tol={} init={} seed={}{}",
+        "sweep metric={} X={} inits={} k={} ms={} tol={} init={} seed={}{} layx={}",
         metric.name(),
         show_mat(&d.x),
         inits.iter().map(|c| show_mat(&rows_of(c))).collect::<Vec<_>>().join("|"),
@@ -868,7 +928,8 @@ fn op_sweep<F: Sc>(em: &mut Em, pool: &rayon::ThreadPool, metric: Metric, d: &Da
         tol.hx(),
         init.name(),
         seed,
-        prec_tok::<F>()
+        prec_tok::<F>(),
+        lay_x.name()
     );
     let class = cls::<F>(format!("sweep:metric={}:init={}:runs={}", metric.name(), init.name(), if rr == 1 { "1" } else { "multi" }));
     em.count(&format!("sweep:init={}", init.name()));
@@ -876,22 +937,31 @@ fn op_sweep<F: Sc>(em: &mut Em, pool: &rayon::ThreadPool, metric: Metric, d: &Da
     let x = d.x.clone();
     let p = d.p();
     let before = em.outs.len();
+    let rose = Cell::new(false);
+    let randomised = !matches!(init, Init::Pre(_));
     em.case_valid(op, &class, |ctx| {
         let qa = qmat(&q, p);
         if inits.len() != rr {
             ctx.fail("no_panic", &class, "the initialiser panicked on data with k <= n".to_string());
             return "panic".to_string();
         }
+        if randomised {
+            oracle_init_rows(ctx, &class, k, &x, &inits);
+        }
         let inb = inits.iter().all(|c| in_bbox(&bbox(&x), &rows_of(c)));
         let mut parts = vec![];
         let mut prev: Option<(u64, f64, F)> = None;
         for m in &ms {
-            let o = pool.install(|| fit_plain(metric, k, &xa, &qa, &init, rr, *m, tol, seed));
+            let o = pool.install(|| fit_lay(metric, k, &xa, &qa, &init, rr, *m, tol, seed, lay_x));
             if let Some(f) = &o {
                 oracle_fitted(ctx, &class, metric, k, &x, &q, f, inb);
                 let c = cost_of(metric, &f.centroids, &x);
                 if let Some((pm, pc, pi)) = prev {
-                    ctx.require(c <= pc * (1.0 + F::rel()) + 1e-300 + 4.0 * x.len() as f64 * F::tiny().to(), "cost_antitone_in_budget", &class, || {
+                    let held = c <= pc * (1.0 + F::rel()) + 1e-300 + 4.0 * x.len() as f64 * F::tiny().to();
+                    if !held || !(f.inertia.to() <= pi.to() * (1.0 + F::rel()) + 1e-300 + 16.0 * F::tiny().to()) {
+                        rose.set(true);
+                    }
+                    ctx.require(held, "cost_antitone_in_budget", &class, || {
                         format!("n_runs={} seed={} init={}: budget {} -> {}: within-cluster cost of the returned centroids {:?} -> {:?} (centroids {:?})", rr, seed, init.name(), pm, m, pc, c, f.centroids)
                     });
                     ctx.require(f.inertia.to() <= pi.to() * (1.0 + F::rel()) + 1e-300 + 16.0 * F::tiny().to(), "cost_antitone_in_budget", &class, || format!("n_runs={} seed={} init={}: budget {} -> {}: reported inertia {:?} -> {:?}", rr, seed, init.name(), pm, m, pi, f.inertia));
@@ -904,7 +974,8 @@ fn op_sweep<F: Sc>(em: &mut Em, pool: &rayon::ThreadPool, metric: Metric, d: &Da
         }
         format!("ok {}", parts.join(" "))
     });
-    count_ok(em, before, &[format!("ok:sweep:prec={}", F::PREC), format!("ok:sweep:init={}", init.name()), format!("ok:sweep:metric={}", metric.name())]);
+    let held_key = format!("{}:sweep:metric={}", if rose.get() { "rose:antitone" } else { "ok:antitone_held" }, metric.name());
+    count_ok(em, before, &[format!("ok:sweep:prec={}", F::PREC), format!("ok:sweep:init={}", init.name()), format!("ok:sweep:metric={}", metric.name()), format!("ok:sweep:layx={}", lay_x.name()), held_key]);
 }
 
 /// the constructors `KMeans::params(k)` / `KMeans::params_with_rng(k, rng)` with nothing else set: the
@@ -918,16 +989,14 @@ fn op_defaults<F: Sc>(em: &mut Em, pool: &rayon::ThreadPool, d: &Data<F>, k: usi
     let metric = Metric::L2;
     let form = if with_rng { "params_with_rng" } else { "params" };
     // read the effective hyper-parameters
-    let (runs, m, tol, li, rng0) = if with_rng {
-        let pr = KMeans::<F, L2Dist>::params_with_rng(k, Xoshiro256Plus::seed_from_u64(seed));
-        let v = pr.check_ref().expect("default hyper-parameters are valid");
-        (v.n_runs(), v.max_n_iterations(), v.tolerance(), v.init_method().clone(), Xoshiro256Plus::seed_from_u64(seed))
-    } else {
-        let pr = KMeans::<F, L2Dist>::params(k);
+    // the parameter set is built ONCE and the very same object is fitted below: a constructor that seeds its
+    // rng from entropy would still be followed (the rng is read back from the object)
+    let pr = if with_rng { KMeans::<F, L2Dist>::params_with_rng(k, Xoshiro256Plus::seed_from_u64(seed)) } else { KMeans::<F, L2Dist>::params(k) };
+    let (runs, m, tol, li, rng0) = {
         let v = pr.check_ref().expect("default hyper-parameters are valid");
         (v.n_runs(), v.max_n_iterations(), v.tolerance(), v.init_method().clone(), v.rng().clone())
     };
-    let inits: Vec<Array2<F>> = catch_unwind(AssertUnwindSafe(|| pool.install(|| inits_api(metric, k, &xa, &li, runs, rng0)))).unwrap_or_default();
+    let inits: Vec<Array2<F>> = catch_unwind(AssertUnwindSafe(|| pool.install(|| inits_api(metric, k, &xa, Lay::C, &li, runs, rng0)))).unwrap_or_default();
     let op = format!(
         "sweep metric=l2 X={} inits={} k={} ms={} tol={} init={} form={} seed={}{}",
         show_mat(&d.x),
@@ -947,8 +1016,9 @@ fn op_defaults<F: Sc>(em: &mut Em, pool: &rayon::ThreadPool, d: &Data<F>, k: usi
             ctx.fail("no_panic", &class, "the initialiser panicked on data with k <= n".to_string());
             return "panic".to_string();
         }
+        oracle_init_rows(ctx, &class, k, &x, &inits);
         let ds = DatasetBase::from(xa.clone());
-        let model = pool.install(|| if with_rng { KMeans::<F, L2Dist>::params_with_rng(k, Xoshiro256Plus::seed_from_u64(seed)).fit(&ds) } else { KMeans::<F, L2Dist>::params(k).fit(&ds) });
+        let model = pool.install(|| pr.fit(&ds));
         let o = model.ok().map(|mo| observe(&mo, &xa, &Array2::zeros((0, p)), Lay::C));
         match &o {
             Some(f) => oracle_fitted(ctx, &class, metric, k, &x, &[], f, true),
@@ -960,22 +1030,28 @@ fn op_defaults<F: Sc>(em: &mut Em, pool: &rayon::ThreadPool, d: &Data<F>, k: usi
 }
 
 /// `LpDist(p)`: oracle only (its distance goes through libm `powf`, which the model does not have)
-fn op_lp(em: &mut Em, d: &Data<f64>, pw: f64, init: Vec<Vec<f64>>, m: u64, q: Vec<Vec<f64>>) {
+/// `rinit`: `None` = the precomputed matrix `init`, `Some(i)` = a randomised initialiser (its weights go
+/// through `LpDist::rdistance` too) with two restarts
+fn op_lp<F: Sc>(em: &mut Em, d: &Data<F>, pw: f64, init: Vec<Vec<F>>, rinit: Option<Init<F>>, m: u64, q: Vec<Vec<F>>, seed: u64) {
     let metric = Metric::Lp(pw);
     let k = init.len();
-    let op = format!("#lp metric={} X={} init={} m={} Q={}", metric.name(), show_mat(&d.x), show_mat(&init), m, show_mat(&q));
-    let class = format!("lp:metric={}", metric.name());
+    let iname = rinit.as_ref().map(|i| i.name()).unwrap_or("precomputed");
+    let op = format!("#lp metric={} X={} init={} m={} Q={} via={} seed={}{}", metric.name(), show_mat(&d.x), show_mat(&init), m, show_mat(&q), iname, seed, prec_tok::<F>());
+    let class = cls::<F>(format!("lp:metric={}", metric.name()));
     let x = d.x.clone();
     let p = d.p();
     let okf = Cell::new(false);
     em.case_valid(op, &class, |ctx| {
         let xa = mat(&x, p);
         let qa = qmat(&q, p);
-        let ia = Init::Pre(mat(&init, p));
-        match fit_plain(metric, k, &xa, &qa, &ia, 1, m, 1e-4, 0) {
+        let (ia, runs, inb) = match &rinit {
+            None => (Init::Pre(mat(&init, p)), 1, in_bbox(&bbox(&x), &init)),
+            Some(i) => (i.clone(), 2, true),
+        };
+        match fit_plain(metric, k, &xa, &qa, &ia, runs, m, F::of(1e-4), seed) {
             None => ctx.fail("fit_succeeds", &class, "fit returned an error on finite data".to_string()),
             Some(f) => {
-                oracle_fitted(ctx, &class, metric, k, &x, &q, &f, in_bbox(&bbox(&x), &init));
+                oracle_fitted(ctx, &class, metric, k, &x, &q, &f, inb);
                 okf.set(true);
             }
         }
@@ -983,12 +1059,29 @@ fn op_lp(em: &mut Em, d: &Data<f64>, pw: f64, init: Vec<Vec<f64>>, m: u64, q: Ve
     });
     if okf.get() {
         em.count("ok:lp");
+        em.count(&format!("ok:lp:prec={}", F::PREC));
+        em.count(&format!("ok:lp:via={}", if rinit.is_some() { "randomised" } else { "precomputed" }));
     }
+}
+
+/// sums of a few rows leave the floating-point range: rows are small multiples of a quarter of the largest
+/// finite value.  Squared-L2 distances overflow at once (every restart has inertia +inf: `Err(InertiaError)`,
+/// the model's `none`); under L1 / L-inf some cluster sums overflow and others do not.
+fn gen_overflow<F: Sc>(rng: &mut Rng) -> (Data<F>, Vec<Vec<F>>) {
+    let q = F::maxq();
+    let n = 2 + rng.below(7);
+    let p = 1 + rng.below(2);
+    let x: Vec<Vec<F>> = (0..n).map(|_| (0..p).map(|_| F::of(q * (rng.range(-6, 6) as f64 / 2.0))).collect()).collect();
+    let k = 1 + rng.below(n.min(3));
+    let mut idx: Vec<usize> = (0..n).collect();
+    rng.shuffle(&mut idx);
+    let init = (0..k).map(|i| x[idx[i]].clone()).collect();
+    (Data { x, kind: "overflow" }, init)
 }
 
 // ------------------------------------------------------------------------------ run
 
-fn run_prec<F: Sc>(em: &mut Em, rng: &mut Rng, pool: &rayon::ThreadPool, share: usize) {
+fn run_prec<F: Sc>(em: &mut Em, rng: &mut Rng, pool: &rayon::ThreadPool, pool4: &rayon::ThreadPool, share: usize) {
     let big = em.thorough();
     let scale = if big { 12 } else { 1 };
     let cnt = |base: usize| (base * scale * share / 4).max(1);
@@ -1015,7 +1108,8 @@ fn run_prec<F: Sc>(em: &mut Em, rng: &mut Rng, pool: &rayon::ThreadPool, share: 
     // fit from a precomputed matrix in every memory layout, every calling form of predict / transform on
     // training and new rows
     for i in 0..cnt(800) {
-        let size = if i % 8 == 7 { 2 } else { 1 };
+        // one case in a hundred has more than 256 rows (blocked / chunked kernels with a partial last block)
+        let size = if i % 100 == 99 { 3 } else if i % 8 == 7 { 2 } else { 1 };
         let d = gen_data::<F>(rng, big, size);
         let k = gen_k(rng, &d, size);
         let (init, ikind) = gen_init(rng, &d, k);
@@ -1039,14 +1133,35 @@ fn run_prec<F: Sc>(em: &mut Em, rng: &mut Rng, pool: &rayon::ThreadPool, share: 
                 }
             }
         }
-        op_fit(em, metric, &d, init, ikind, m, tol, q, lay_x, lay_q, if size == 2 { "size=wide" } else { "size=normal" });
+        // the precomputed matrix itself in column-major order in a third of the cases
+        let init_f = rng.chance(1, 3);
+        op_fit(em, metric, &d, init, ikind, m, tol, q, lay_x, lay_q, init_f, if size == 3 { "size=over256" } else if size == 2 { "size=wide" } else { "size=normal" });
+    }
+    // data whose sums overflow: the `Err(InertiaError)` branch and the models returned next to it
+    {
+        // {1.5q, 1.5q, -q}, centroids on 1.5q and -q (q = MAX/4): the first cluster's sum overflows, its rows move to
+        // the second centroid, whose sums stay in range
+        let q = F::maxq();
+        let w = Data { x: vec![vec![F::of(1.5 * q)], vec![F::of(1.5 * q)], vec![F::of(-q)]], kind: "overflow" };
+        for metric in metrics {
+            for m in [1u64, 2, 3] {
+                op_fit(em, metric, &w, vec![vec![F::of(1.5 * q)], vec![F::of(-q)]], "rows", m, F::of(1e-4), vec![], Lay::C, Lay::C, false, "overflow");
+            }
+        }
+    }
+    for _ in 0..cnt(120) {
+        let (d, init) = gen_overflow::<F>(rng);
+        let m = 1 + rng.below(4) as u64;
+        let metric = *rng.pick(&metrics);
+        let q = if rng.coin() { vec![d.x[0].clone()] } else { vec![] };
+        op_fit(em, metric, &d, init, "rows", m, F::of(1e-4), q, *rng.pick(&LAYS), Lay::C, rng.coin(), "overflow");
     }
     // long budgets: one point at 0, one centroid far away, a tolerance only an exactly-zero shift meets:
     // the centroid halves its distance once per iteration, so the iteration counter is what stops the loop
     for m in [255u64, 256, 257, 260] {
         for metric in metrics {
             let d = Data { x: vec![vec![F::zero()]], kind: "long" };
-            op_fit(em, metric, &d, vec![vec![F::long_start()]], "long", m, F::tiny(), vec![], Lay::C, Lay::C, "budget>=255");
+            op_fit(em, metric, &d, vec![vec![F::long_start()]], "long", m, F::tiny(), vec![], Lay::C, Lay::C, false, "budget>=255");
         }
     }
     // trajectories
@@ -1069,7 +1184,19 @@ fn run_prec<F: Sc>(em: &mut Em, rng: &mut Rng, pool: &rayon::ThreadPool, share: 
         let seed = rng.next() % 1000;
         let q = gen_queries(rng, &d, &d.x[..1]);
         let metric = *rng.pick(&metrics);
-        op_restarts(em, pool, metric, &d, k, init, rr, m, gen_tol(rng), seed, q);
+        // the training matrix in any memory layout (the initialisers read it too); every second case in a
+        // pool of several threads (k-means|| samples its candidates in parallel)
+        let lay_x = if rng.chance(1, 2) { Lay::C } else { *rng.pick(&LAYS) };
+        let pl = if rng.coin() { pool } else { pool4 };
+        op_restarts(em, pl, metric, &d, k, init, rr, m, gen_tol(rng), seed, q, lay_x);
+    }
+    // k-means|| on more rows than one sampling block, several threads: the restarts of `n_runs = r` must still
+    // be a prefix of those of `n_runs = r + 1`
+    for _ in 0..cnt(8) {
+        let n = 300 + rng.below(500);
+        let d = Data { x: (0..n).map(|_| (0..2).map(|_| F::of(2.0 * rng.unit() - 1.0)).collect()).collect(), kind: "cloud" };
+        let seed = rng.next() % 1000;
+        op_restarts(em, pool4, Metric::L2, &d, 2 + rng.below(4), Init::Para, 2 + rng.below(2), 1 + rng.below(3) as u64, F::of(1e-4), seed, vec![], Lay::C);
     }
     // budget sweeps with restarts (n_runs >= 2, randomised initialiser, fixed seed; also the same
     // precomputed matrix for every restart): mostly overlapping data with more rows, where a later
@@ -1090,16 +1217,18 @@ fn run_prec<F: Sc>(em: &mut Em, rng: &mut Rng, pool: &rayon::ThreadPool, share: 
         let metric = if rng.chance(3, 4) { Metric::L2 } else { *rng.pick(&metrics) };
         let tol = F::of(*rng.pick(&[1e-4, 1e-4, 1e-2, 1e-1, 1e-9]));
         let q = gen_queries(rng, &d, &d.x[..1]);
-        op_sweep(em, pool, metric, &d, k, init, rr, (1..=mm).collect(), tol, seed, q);
+        let lay_x = if rng.chance(1, 2) { Lay::C } else { *rng.pick(&LAYS) };
+        op_sweep(em, if rng.coin() { pool } else { pool4 }, metric, &d, k, init, rr, (1..=mm).collect(), tol, seed, q, lay_x);
     }
     // the constructors with default hyper-parameters
     for i in 0..cnt(24) {
         let d = gen_data::<F>(rng, big, 1);
         let k = gen_k(rng, &d, 1);
         let seed = rng.next() % 1000;
-        op_defaults(em, pool, &d, k, i % 2 == 0, seed);
+        op_defaults(em, if i % 4 < 2 { pool } else { pool4 }, &d, k, i % 2 == 0, seed);
     }
 }
+
 
 pub fn run(em: &mut Em, rng: &mut Rng) {
     let big = em.thorough();
@@ -1126,19 +1255,26 @@ pub fn run(em: &mut Em, rng: &mut Rng) {
         }
     }
     // three quarters of the generated cases in f64, one quarter in f32
-    run_prec::<f64>(em, rng, &pool, 3);
-    run_prec::<f32>(em, rng, &pool, 1);
+    let pool4 = rayon::ThreadPoolBuilder::new().num_threads(4).build().expect("rayon pool");
+    run_prec::<f64>(em, rng, &pool, &pool4, 3);
+    run_prec::<f32>(em, rng, &pool, &pool4, 1);
 
     // LpDist: oracle only
-    for _ in 0..60 * scale {
-        let d = gen_data::<f64>(rng, big, 1);
-        if d.kind == "extreme" {
-            continue; // powf of the extreme magnitudes leaves the range
+    fn lp_cases<F: Sc>(em: &mut Em, rng: &mut Rng, big: bool, count: usize) {
+        for _ in 0..count {
+            let d = gen_data::<F>(rng, big, 1);
+            if d.kind == "extreme" {
+                continue; // powf of the extreme magnitudes leaves the range
+            }
+            let k = gen_k(rng, &d, 1);
+            let (init, _) = gen_init(rng, &d, k);
+            let q = gen_queries(rng, &d, &init);
+            let m = 1 + rng.below(6) as u64;
+            let rinit = if rng.chance(1, 3) { Some(rng.pick(&[Init::Random, Init::Kpp, Init::Para]).clone()) } else { None };
+            let seed = rng.next() % 1000;
+            op_lp(em, &d, *rng.pick(&[1.5, 3.0, 4.0]), init, rinit, m, q, seed);
         }
-        let k = gen_k(rng, &d, 1);
-        let (init, _) = gen_init(rng, &d, k);
-        let q = gen_queries(rng, &d, &init);
-        let m = 1 + rng.below(6) as u64;
-        op_lp(em, &d, *rng.pick(&[1.5, 3.0, 4.0]), init, m, q);
     }
+    lp_cases::<f64>(em, rng, big, 60 * scale);
+    lp_cases::<f32>(em, rng, big, 30 * scale);
 }
